@@ -164,6 +164,17 @@ def judge(batches, result, closer_sleep):
             seen += [f, to]
             if recs[f]["cookie"] != recs[to]["cookie"] or recs[f]["kind"] != "from" or recs[to]["kind"] != "to":
                 return f"pair ({f},{to}) is not the two halves of one rename"
+    # both halves of one rename read in the SAME batch are handed out as one pair, whatever lies between them
+    singles = {int(d.partition("@")[0][1:]) for d in result["delivered"] if d[0] == "S"}
+    for _gap, rs in batches:
+        for a_ in rs:
+            if a_["kind"] != "from":
+                continue
+            for b_ in rs:
+                if b_["kind"] == "to" and b_["cookie"] == a_["cookie"] and b_["id"] > a_["id"] and \
+                        (a_["id"] in singles or b_["id"] in singles):
+                    return (f"MOVED_FROM {a_['id']} and MOVED_TO {b_['id']} (cookie {a_['cookie']}) were read in one batch but "
+                            "not delivered as one pair")
     for i in set(seen):
         if seen.count(i) > 1:
             return f"record {i} delivered {seen.count(i)} times"
